@@ -43,7 +43,14 @@ def run(tier, seed):
         if rnd.random() < 0.3 and len(prior) > 1:
             prior = prior[: rnd.randint(1, len(prior))]
         fail = -1 if rnd.random() < 0.6 else rnd.choice([0, 3, 4, 100, 700, 5000])
-        scenarios.append({"id": len(scenarios) + 1, "cfg": s["cfg"], "prior": prior, "h": other["ops"], "failAt": fail})
+        cfg = s["cfg"]
+        if len(scenarios) % 5 == 4:
+            # a directed family: the earlier file overflowed its dictionaries (tiny limit, tiny pages) and was
+            # abandoned with rows still buffered; the next file overflows them again
+            cfg = dict(cfg, dict="tiny", pagebuf="tiny")
+            prior = [o for o in prior if o["op"] != "close"] + [{"op": "write", "n": 65}, {"op": "write", "n": 3}]
+            fail = -1
+        scenarios.append({"id": len(scenarios) + 1, "cfg": cfg, "prior": prior, "h": other["ops"], "failAt": fail})
     vf.log(f"[C17] X: {x.distinct} states; scenarios {len(scenarios)}")
 
     # both builds run every scenario; the monitor joins them by scenario key
